@@ -1,6 +1,6 @@
 """Kernel obligations on single real functions (C15 classification, C16 blur arithmetic)."""
 import z3
-from sx.engine import E, Engine, SBool, SStr, SNum, SOpt, Z, Inconclusive, Unsupported
+from sx.engine import E, Engine, IntName, SBool, SStr, SNum, SOpt, Z, Inconclusive, Unsupported
 from sx.run import obligation, PathResult
 from sx.relstore import RowView, RelStore
 from sx.world import SymWorld, REAL_APPNS, NullLog
@@ -11,6 +11,7 @@ import wormhole_mailbox_server.database as DBM
 
 def _mk_app(e, blur):
     S.log = NullLog()
+    S.int = IntName        # `int(x)` of a symbolic number stays symbolic (delegates to the builtin otherwise)
     return REAL_APPNS(None, None, blur, False, e.sym_str("app"), True)
 
 
